@@ -159,7 +159,17 @@ class Gen:
                         continue
                     for p in parents(sp):
                         img[p] = D()
-                    img[sp] = F("%s content of %s %d\n" % (tag, sp, rng.randrange(3)), rng.choice([0o644, 0o755, 0o600]))
+                    # the shared object may be of any non-directory type (a .so symlink, a fifo), not only a file
+                    k = rng.random()
+                    if k < 0.55:
+                        img[sp] = F("%s content of %s %d\n" % (tag, sp, rng.randrange(3)),
+                                    rng.choice([0o644, 0o755, 0o600]))
+                    elif k < 0.9:
+                        pdir = phys_of(live, sp).rsplit("/", 1)[0]
+                        img[sp] = L(rng.choice([relto(pdir, "vt_outside/t_file"), relto(pdir, "vt_outside/t_dir"),
+                                                "vt_does_not_exist", "@R@/vt_outside/t_file"]))
+                    else:
+                        img[sp] = {"t": "p"}
                     continue
                 kind = rng.choices(["f", "l_file", "l_dir", "l_out_rel", "l_out_abs", "l_dangling", "p"],
                                    [10, 2, 2, 2, 2, 1, 1])[0]
